@@ -1214,3 +1214,50 @@ func decodeLabelIndex(b []byte) (*labelIndex, string) {
 	}
 	return idx, ""
 }
+
+// Resync adopts DVID's current state as the model (after a crash interrupted an
+// operation whose effect is unknown): supervoxel volume and mapping of every version.
+func (x *LabelExec) Resync() error {
+	g := x.M.Geom
+	nx, ny, nz := g.Dims()
+	off := g.Offset()
+	full := fmt.Sprintf("%d_%d_%d/%d_%d_%d", nx, ny, nz, off[0], off[1], off[2])
+	for _, v := range x.D.Sorted() {
+		lv := x.M.Versions[v]
+		if lv == nil {
+			continue
+		}
+		st, body, err := x.W.HTTP("GET", x.base(v)+"/raw/0_1_2/"+full+"?supervoxels=true", nil)
+		if err != nil {
+			return err
+		}
+		if st != 200 || len(body) != 8*len(lv.Vox) {
+			continue
+		}
+		lv.Vox = bytesToU64s(body)
+		var svs []uint64
+		for sv := range lv.SVSizes() {
+			svs = append(svs, sv)
+			x.M.note(sv)
+		}
+		sort.Slice(svs, func(i, j int) bool { return svs[i] < svs[j] })
+		if len(svs) == 0 {
+			continue
+		}
+		resps, err := x.W.Seq([]proto.Req{{Client: "c0", Kind: "http", Method: "GET", URL: x.base(v) + "/mapping", Body: jsonU64s(svs)}})
+		if err != nil {
+			return err
+		}
+		var mapped []uint64
+		if resps[0].Status == 200 && json.Unmarshal(resps[0].Body, &mapped) == nil && len(mapped) == len(svs) {
+			lv.Map = map[uint64]uint64{}
+			for i, sv := range svs {
+				if mapped[i] != sv && mapped[i] != 0 {
+					lv.Map[sv] = mapped[i]
+					x.M.note(mapped[i])
+				}
+			}
+		}
+	}
+	return nil
+}
